@@ -97,7 +97,12 @@ def gen_case(rng):
                     seq = str(rng.randrange(1 << 24))
                 if seq != "-" and mv in ("inc", "wrap"):
                     seq_state[tok] = base
-            lines.append("arrive %d %d %s %d %s" % (tok, code, seq, t, tag()))
+            if st != "pending" and rng.random() < 0.08:
+                # the token value without its leading zero bytes: a different token (length is part of a token), nobody's
+                lines.append("arrivez %d %d %s %d %s" % (tok, code, seq, t, tag()))
+                kinds.add("token-differs-in-length-only")
+            else:
+                lines.append("arrive %d %d %s %d %s" % (tok, code, seq, t, tag()))
         elif r < 0.88:
             if tok in regs:
                 lines.append("cancel %d %d" % (tok, regs[tok][0]))
@@ -125,6 +130,9 @@ def dl(line):
     detail below the model (it decides which exit of NewObservation a later `regabort` takes: waiting for the first
     response, or the write itself failing because the ACK never came)"""
     f = line.split()
+    if f[0] == "arrivez":
+        # for the model: a message with a token no registration has
+        return "arrive %d %s" % (int(f[1]) + 1000000, " ".join(f[2:]))
     if f[0] == "cfg" and f[1].endswith("bw"):
         # block-wise transfer enabled and notifications of live observations delivered in two blocks (RFC 7959 2.6): below
         # the model - the application must see the same single notification
